@@ -698,6 +698,10 @@ func c20MixBinutils(cs *c20Case, obs *c20Obs) {
 		obs.hit("skipped:no-nm")
 		return
 	}
+	if have["objdump"] {
+		c20FirstUseVsSetter(cs, obs, fullPath)
+		os.Setenv("PATH", fullPath)
+	}
 	// addresses: starts of the text symbols
 	bu0 := &binutils.Binutils{}
 	f0, err := bu0.Open(exe, start, limit, 0, "")
@@ -1120,6 +1124,62 @@ func c20BulkFailures(cs *c20Case, obs *c20Obs, r *Rng, prof []byte) {
 			c20Fl.progress.Add(1)
 			obs.fail("C20/fetch/hang", "one invocation fetching %d URL sources (%d good; 404, 500, text error, garbage, truncated, closed connection and refused connection ≥18 times each) did not finish within 45 s; every single fetch ends within a second when made alone", len(all), nGood)
 			return
+		}
+	}
+}
+
+// c20FirstUseVsSetter: a Binutils whose tools are not resolved yet.  Goroutine A makes the first
+// use (String → get → tool discovery, made slow by an objdump wrapper that sleeps first on PATH);
+// goroutine B calls a setter meanwhile.  Whatever the order, the setter's effect must be there
+// afterwards: "A then B" and "B then A" both end in the configuration the setter alone produces.
+func c20FirstUseVsSetter(cs *c20Case, obs *c20Obs, fullPath string) {
+	slow := filepath.Join(os.Getenv("C20_TMP"), "slowbin")
+	os.MkdirAll(slow, 0o755)
+	for _, t := range []string{"objdump", "llvm-objdump"} {
+		real := ""
+		for _, d := range filepath.SplitList(fullPath) {
+			if _, err := os.Stat(filepath.Join(d, t)); err == nil {
+				real = filepath.Join(d, t)
+				break
+			}
+		}
+		if real == "" {
+			continue
+		}
+		os.WriteFile(filepath.Join(slow, t), []byte("#!/bin/sh\nsleep 0.4\nexec "+real+" \"$@\"\n"), 0o755)
+	}
+	os.Setenv("PATH", slow+string(os.PathListSeparator)+fullPath)
+	setters := []struct {
+		name string
+		set  func(bu *binutils.Binutils)
+	}{
+		{"SetFastSymbolization(true)", func(bu *binutils.Binutils) { bu.SetFastSymbolization(true) }},
+		{"SetTools(addr2line:/nonexistent-c20)", func(bu *binutils.Binutils) { bu.SetTools("addr2line:/nonexistent-c20") }},
+	}
+	trials := 1 + cs.Rounds/3
+	for trial := 0; trial < trials && !c20Enough(obs); trial++ {
+		st := setters[trial%len(setters)]
+		// the setter alone on a fresh object (equals both sequential orders: a later first use
+		// finds the configuration resolved and changes nothing)
+		alone := &binutils.Binutils{}
+		st.set(alone)
+		want := alone.String()
+		bu := &binutils.Binutils{}
+		var wg sync.WaitGroup
+		wg.Add(2)
+		go func() {
+			defer wg.Done()
+			c20Fl.do(func() { _ = bu.String() })
+		}()
+		go func() {
+			defer wg.Done()
+			time.Sleep(120 * time.Millisecond) // A is inside the tool discovery by now
+			c20Fl.do(func() { st.set(bu) })
+		}()
+		wg.Wait()
+		obs.hit("first-use-vs-" + strings.SplitN(st.name, "(", 2)[0])
+		if got := bu.String(); got != want {
+			obs.fail("C20/binutils/setter-lost", "%s called while the first use of a Binutils was still resolving its tools is lost: configuration afterwards %q, in either sequential order %q", st.name, got, want)
 		}
 	}
 }
